@@ -34,6 +34,9 @@ def make(rng, variant):
     over["ds_family"] = str(rng.choice(["chain", "chain", "random", "dup", "tight", "lattice"]))
     if runs.VARIANTS[variant]["shape"] == "ell":
         over["K"] = min(over["K"], 6)
+    elif rng.random() < 0.12 and variant not in ("PaVeBa",):
+        over["K"] = int(rng.integers(12, 17))  # design indices with two digits, larger active sets
+        over["contraction"] = 32.0
     if variant in ("PaVeBa",):
         over["contraction"] = float(rng.choice([8, 32, 64]))
         over["obs_mode"] = str(rng.choice(["controlled", "adversarial"]))
@@ -109,7 +112,21 @@ def directed_auer(mon, rng):
             judge_run(mon, tr, case, variant)
 
 
+def directed_many_designs(mon, rng):
+    """13-16 designs on chain datasets (two-digit indices, many heterogeneous cover relations)"""
+    variant = str(rng.choice(["PaVeBaGP-IH", "PartialGP-rect"]))
+    case, order = runs.make_case(rng, variant, K=int(rng.integers(13, 17)), m=2, ds_family="chain", cone_families=["orthant", "theta"],
+                                 contraction=float(rng.choice([8, 32])), stub_mode=str(rng.choice(["random", "adversarial"])), batch=1)
+    case["max_rounds"] = 60
+    tr = runs.run_case(case, order, mon, max_extra_steps=0)
+    mon.count("many_design_runs")
+    judge_run(mon, tr, case, variant)
+
+
 def shard(mon, tier, rng, shard_no, nshards):
+    if shard_no % 2 == 1 or tier == "thorough":
+        for _ in range(1 if tier == "quick" else 6):
+            directed_many_designs(mon, rng)
     if shard_no == 0:
         directed_k3(mon)
     if shard_no < 6:
